@@ -308,6 +308,12 @@ class HTTP(BaseComponent):
             del self._buffers[sock]
             return self.fire(httperror(req, res, 400, description='No host header defined'))
 
+        if any(c <= ' ' or c == '\x7f' for c in req.headers.get('Host', '')):
+            # control characters and spaces are not part of a host name; they
+            # would be reflected into Location and other generated URLs
+            del self._buffers[sock]
+            return self.fire(httperror(req, res, 400, description='Invalid host header'))
+
         # Guard against unwanted request paths (SECURITY).
         path = req.path
         _path = req.uri._path
